@@ -17,4 +17,19 @@ CLAIMS = {
         "note": TRUST,
         "technique": "MIR value-flow + control-dependence rule, sibling cross-check of merge call sites",
     },
+    "C01": {
+        "text": "Partial, structural: decides on MIR (a) R-REBUILD: after Database::merge_all/run_rule_set/merge_table every path of every bridge function to a normal return (Ok or Err) calls a rebuilder or takes the equal side of a before/after comparison of the union-find table's size, with obligations propagated through pure propagators to their callers and public propagators rejected; (b) R-FIXPOINT: each rebuild loop (native apply_rebuild loop, serial and parallel while-changed loops) exits only when every change signal of the pass is false and advances the timestamp each pass; (c) R-MIN: the table/container merge functions return min(a,b) of the ids they union and UnionFind::union links max under min. Does NOT decide soundness/completeness of congruence closure over data. Found F3 (run_rules_inner returned a rule panic before rebuilding; fixed).",
+        "note": TRUST + " Error exits inside the rebuilder itself are exempt. len(uf_table) unchanged across a merge is taken to mean no new union.",
+        "technique": "MIR path rule (must-pass-through with obligation propagation), loop-exit edge analysis, value-origin min/max selection",
+    },
+    "C04": {
+        "text": "Partial, structural: R-REBUILD of C01 over all normal exits including Err exits (where the property's 'failed command' clause lives), plus R-WHO-MERGES: outside egglog_core_relations only rebuilders, R-REBUILD-obligated functions and one listed wrapper may call the merging/rebuilding Database operations, crate egglog none, and no public bridge function hands out &mut Database; R-CANON-READS: add_term returns the id canonicalised after the flush. Does NOT decide key uniqueness, container hash-consing or serialisation agreement (data).",
+        "note": TRUST,
+        "technique": "MIR path rule over all exits + who-may-call over the resolved call graph",
+    },
+    "C07": {
+        "text": "Partial, structural: decides on MIR that every extractor scan closure mutates extractor state / collects root variants only under row.subsumed == false; that functions enter the reverse index only under !unextractable, !internal_hidden and the constructor-or-view test; that a parent edge is recorded only under best-cost equality and a strict rank decrease (cycle guard); that integer Cost::combine saturates. Does NOT decide optimality or class membership of the extracted term.",
+        "note": TRUST,
+        "technique": "MIR control-dependence (guard) rules on effect sites, binop/callee inventory for Cost::combine",
+    },
 }
